@@ -538,7 +538,7 @@ def tableau_invariant(letters, ks, r):
     return None
 
 
-def random_big_clifford(N, seed, ngates=None):
+def random_big_clifford(N, seed, ngates=None, scramble=True):
     """deterministic pseudo-random Clifford on many qubits (a pure function of its arguments): random single-qubit Cliffords on every qubit,
     then ngates random H/S/CNOT gates applied column-wise (cost O(N) per gate), then random signs."""
     rs = np.random.RandomState(seed)
@@ -557,7 +557,7 @@ def random_big_clifford(N, seed, ngates=None):
         # row = rest (x) sub  ->  rest (x) image(sub); they live on disjoint qubits so the product is a plain merge
         L = rest_l + full
         K = (K + ik) % 4
-    for q in range(N):
+    for q in range(N if scramble else 0):
         apply_small(ones[rs.randint(0, 6)], [q])
     for _ in range(ngates):
         t = rs.randint(0, 3)
@@ -569,5 +569,6 @@ def random_big_clifford(N, seed, ngates=None):
             a, b = rs.choice(N, size=2, replace=False)
             a, b = int(min(a, b)), int(max(a, b))
             apply_small(G_CNOT01 if rs.randint(0, 2) else G_CNOT10, [a, b])
-    K = (K + 2 * rs.randint(0, 2, size=2 * N)) % 4
+    if scramble:
+        K = (K + 2 * rs.randint(0, 2, size=2 * N)) % 4
     return RefClifford(L, K)
